@@ -58,6 +58,7 @@ type Spec struct {
 	RMeta    []pxy.KV          `json:"-"`
 	RAdd     bool              `json:"reply_meta_add,omitempty"`
 	RCodec   byte              `json:"reply_codec_set,omitempty"`
+	Wish     byte              `json:"accept_body_codec_wish,omitempty"` // erpc.WithAcceptBodyCodec (0 = no wish)
 	Reply    string            `json:"reply_mode,omitempty"`
 	SessID   string            `json:"session_id_class,omitempty"` // how the proxy's downstream session got an id of its own
 	Class    string            `json:"class"`
@@ -114,7 +115,110 @@ var pushDims = []dimTable{
 	{"meta", []string{"only-pid", "dup-keys", "punct", "utf8", "empty-value", "many", "long-value", "preset-realip", "dup-realip", "case-variants"}, []string{"only-pid", "dup-keys", "preset-realip"}},
 	{"pipe", []string{"gzip", "gzip-md5"}, nil},
 	{"pstatus", []string{"handler-error"}, []string{"handler-error"}},
+	{"accept", []string{"push-accept-xml", "push-accept-unregistered"}, []string{"push-accept-xml"}},
 	{"sessid", []string{"postaccept", "setid-goroutine", "setid-handler", "setid-changed", "id-address-like", "id-punct", "postaccept+preset-realip", "setid-goroutine+preset-realip"}, []string{"postaccept", "setid-goroutine"}},
+}
+
+// ---- the reply-codec cell: request codec R x accept-body-codec wish Q x what the backend handler does ----
+//
+// The caller encodes the request in codec R and wishes the reply in codec Q (erpc.WithAcceptBodyCodec). The
+// backend handler leaves the choice to the framework (which honours a wish for a registered codec), or sets
+// the reply codec itself: to R (what a backend that does not know Q ends up with as well), to Q, or to a
+// third codec T. Typed kinds are decoded by the caller with the codec the reply is labelled with, so a
+// label that does not match the bytes shows as another status / result; raw kinds show it as another codec.
+
+type wishParam struct {
+	kind  string
+	r, q  byte // request codec (raw kinds only: typed kinds have the codec of their kind), wish (0 = none)
+	rc    byte // codec set by the backend handler (0 = left to the framework)
+	as    string
+	reply string
+}
+
+var wishCells = []struct{ kind, r, q, t string }{
+	{"bytes", "json", "plain", "xml"},  // R = the process default codec
+	{"bytes", "plain", "json", "form"}, // Q = the process default codec
+	{"bytes", "xml", "form", "json"},   // T = the process default codec
+	{"rbytes", "xml", "json", "plain"},
+	{"json", "json", "xml", "form"},
+	{"json", "json", "form", "xml"},
+	{"xml", "xml", "json", "form"},
+	{"form", "form", "xml", "json"},
+	{"plain", "plain", "json", "xml"},
+	{"pb", "protobuf", "json", ""},
+}
+
+var (
+	wishTable = map[string]wishParam{}
+	wishAll   []string
+	wishTame  = []string{"bytes.json-wants-plain.honoured", "bytes.json-wants-plain.sets-request", "bytes.json-wants-plain.sets-third",
+		"json.json-wants-xml.sets-request.typed", "json.json-wants-xml.sets-third.typed", "json.json-wants-none.sets-request.typed"}
+)
+
+func init() {
+	add := func(kind, r, qname string, q byte, how string, rc byte, as, reply string) {
+		name := kind + "." + r + "-wants-" + qname + "." + how
+		if as != "" {
+			name += "." + as
+		}
+		if reply != "" {
+			name += "." + reply + "-reply"
+		}
+		if _, dup := wishTable[name]; dup {
+			return
+		}
+		wishTable[name] = wishParam{kind: kind, r: codecOf(r), q: q, rc: rc, as: as, reply: reply}
+		wishAll = append(wishAll, name)
+	}
+	for _, c := range wishCells {
+		raw := c.kind == "bytes" || c.kind == "rbytes"
+		r, q := codecOf(c.r), codecOf(c.q)
+		hows := []struct {
+			how string
+			rc  byte
+		}{{"honoured", 0}, {"sets-request", r}, {"sets-wish", q}}
+		if c.t != "" {
+			hows = append(hows, struct {
+				how string
+				rc  byte
+			}{"sets-third", codecOf(c.t)})
+		}
+		for _, h := range hows {
+			if raw {
+				add(c.kind, c.r, c.q, q, h.how, h.rc, "", "")
+				continue
+			}
+			add(c.kind, c.r, c.q, q, h.how, h.rc, "typed", "")
+			if h.how == "honoured" || h.how == "sets-request" {
+				// the same cell with the caller taking the reply as raw bytes
+				add(c.kind, c.r, c.q, q, h.how, h.rc, "bytes", "")
+			}
+		}
+	}
+	// no wish and the handler names the request's codec; a wish for the request's own codec and the handler
+	// answers in another one; a wish for a codec nobody has registered and the handler sets a codec
+	for _, c := range wishCells[:1] {
+		add(c.kind, c.r, "unregistered", 201, "sets-request", codecOf(c.r), "", "")
+		add(c.kind, c.r, "unregistered", 201, "sets-third", codecOf(c.t), "", "")
+		// an empty reply body still carries the backend's codec
+		add(c.kind, c.r, c.q, codecOf(c.q), "sets-request", codecOf(c.r), "", "empty")
+		add(c.kind, c.r, c.q, codecOf(c.q), "sets-third", codecOf(c.t), "", "empty")
+	}
+	for _, i := range []int{0, 1, 4, 8} {
+		c := wishCells[i]
+		as := "typed"
+		if c.kind == "bytes" {
+			as = ""
+		}
+		add(c.kind, c.r, "none", 0, "sets-request", codecOf(c.r), as, "")
+		add(c.kind, c.r, "same", codecOf(c.r), "sets-third", codecOf(c.t), as, "")
+	}
+	for _, n := range wishTame {
+		if _, ok := wishTable[n]; !ok {
+			panic("wish class " + n)
+		}
+	}
+	callDims = append(callDims, dimTable{"wish", wishAll, wishTame})
 }
 
 func statusOf(class string) *protos.Triple {
@@ -375,8 +479,24 @@ func apply(s *Spec, dim, class string, r *core.Rand, tame bool) {
 	case "reply":
 		s.Reply = class
 	case "accept":
-		v := map[string]string{"bytes-accept-xml": "120", "accept-unregistered": "201", "accept-garbage": "abc"}[class]
+		v := map[string]string{"bytes-accept-xml": "120", "accept-unregistered": "201", "accept-garbage": "abc",
+			"push-accept-xml": "120", "push-accept-unregistered": "201"}[class]
 		s.Meta = append(s.Meta, pxy.KV{K: erpc.MetaAcceptBodyCodec, V: v})
+	case "wish":
+		w, ok := wishTable[class]
+		if !ok {
+			panic("wish class " + class)
+		}
+		s.Kind, s.Wish, s.RCodec = w.kind, w.q, w.rc
+		if w.kind == "bytes" || w.kind == "rbytes" {
+			s.Codec = w.r
+		}
+		if w.as == "typed" {
+			s.ResultAs = "typed"
+		}
+		if w.reply != "" {
+			s.Reply = w.reply
+		}
 	case "sessid":
 		s.SessID = class
 		if i := strings.Index(class, "+preset-realip"); i > 0 {
@@ -520,6 +640,7 @@ func specsOf(g Group, gi int) []Spec {
 	var out []Spec
 	topo := g.Proto + "+" + g.Fwd
 	r := core.NewRand(*seed, int64(gi), 19)
+	wr := core.NewRand(*seed, int64(gi), 29) // decides which mixed calls carry a reply-codec cell
 	n := 0
 	next := func(op string) Spec {
 		n++
@@ -550,13 +671,34 @@ func specsOf(g Group, gi int) []Spec {
 			op = "push"
 		}
 		s := next(op)
+		if wish := wr.Intn(4) == 0; wish && op == "call" {
+			cl := wishAll
+			if g.Tame {
+				cl = wishTame
+			}
+			apply(&s, "wish", cl[wr.Intn(len(cl))], r, g.Tame)
+		}
 		for _, d := range dimsFor(op) {
 			cl := d.classes
 			if g.Tame {
 				cl = d.tame
 			}
+			if d.name == "wish" {
+				continue // drawn above
+			}
 			if len(cl) == 0 || r.Intn(3) != 0 {
 				continue
+			}
+			if s.Classes["wish"] != "" {
+				// the cell fixes the handler kind, the codecs and the way the reply is taken
+				switch d.name {
+				case "typed", "codec", "rcodec", "accept", "result", "reply":
+					continue
+				case "method":
+					if s.Kind != "bytes" {
+						continue
+					}
+				}
 			}
 			// dimensions that fix the handler kind exclude each other
 			if d.name == "typed" && (s.Classes["method"] == "registered" || s.Codec != 0) {
@@ -613,7 +755,21 @@ func settingsOf(s *Spec, pid string) []erpc.MessageSetting {
 	if s.Pipe != "" {
 		st = append(st, erpc.WithXferPipe([]byte(s.Pipe)...))
 	}
+	if s.Wish != 0 {
+		st = append(st, erpc.WithAcceptBodyCodec(s.Wish))
+	}
 	return st
+}
+
+// reqCodec is the body codec the request is labelled with ('j' = the process default set by bed.Init).
+func reqCodec(s *Spec) byte {
+	if c := kindCodec(s.Kind); c != 0 {
+		return c
+	}
+	if s.Codec != 0 {
+		return s.Codec
+	}
+	return 'j'
 }
 
 func methodOf(t *pxy.Topo, s *Spec) string {
@@ -908,6 +1064,24 @@ func runPair(t *pxy.Topo, s *Spec) pairResult {
 			core.Add("direct_calls_ok", 1)
 		} else {
 			core.Add("direct_calls_failed_status", 1)
+		}
+		if s.Classes["wish"] != "" {
+			// what the reply-codec cells met: the codec the direct reply came back in, relative to request and wish
+			switch {
+			case d.Triple.Code != 0:
+				core.Add("wish_cells_direct_status_not_ok", 1)
+			case s.Wish != 0 && d.RCodec == s.Wish && d.RCodec != reqCodec(s):
+				core.Add("wish_cells_direct_reply_in_wished_codec", 1)
+			case s.Wish != 0 && d.RCodec == reqCodec(s) && d.RCodec != s.Wish:
+				core.Add("wish_cells_direct_reply_in_request_codec_despite_wish", 1)
+			case s.Wish != 0 && d.RCodec != s.Wish:
+				core.Add("wish_cells_direct_reply_in_third_codec_despite_wish", 1)
+			default:
+				core.Add("wish_cells_other", 1)
+			}
+			if os.Getenv("C19_DEBUG") != "" {
+				fmt.Fprintf(os.Stderr, "wish %s %s: direct %+v codec %d body %s | proxied %+v codec %d body %s\n", s.Topo, s.Classes["wish"], d.Triple, d.RCodec, trunc(d.Body), q.Triple, q.RCodec, trunc(q.Body))
+			}
 		}
 	}
 	if nq >= 1 {
